@@ -1,0 +1,83 @@
+//go:build verif
+
+package virtual
+
+import (
+	"sort"
+)
+
+// This file only exists in builds that carry the "verif" tag. It exposes
+// read-only snapshots to the model checking harness in
+// /verif/harness/inputroot (property C17). Nothing in here modifies
+// state, takes locks or triggers lazy initialisation of directories.
+
+// VerifInputrootEntry is a plain copy of one directory entry.
+type VerifInputrootEntry struct {
+	Name   string
+	Cookie uint64
+	// Exactly one of the two is set.
+	Directory PrepopulatedDirectory
+	Leaf      LinkableLeaf
+}
+
+// VerifInputrootDirectory is a plain copy of the state of one
+// inMemoryPrepopulatedDirectory.
+type VerifInputrootDirectory struct {
+	// Loaded is false while the InitialContentsFetcher has not been
+	// consumed yet.
+	Loaded  bool
+	Deleted bool
+	// Entries in list (readdir) order. Empty if !Loaded.
+	Entries []VerifInputrootEntry
+	// MapSize is len(entriesMap).
+	MapSize int
+}
+
+// VerifInputrootSnapshot returns the state of a directory without
+// initialising it. The caller guarantees that no other goroutine is
+// using the directory.
+func VerifInputrootSnapshot(d Directory) (VerifInputrootDirectory, bool) {
+	i, ok := d.(*inMemoryPrepopulatedDirectory)
+	if !ok {
+		return VerifInputrootDirectory{}, false
+	}
+	s := VerifInputrootDirectory{
+		Loaded:  i.initialContentsFetcher == nil,
+		Deleted: i.contents.isDeleted,
+		MapSize: len(i.contents.entriesMap),
+	}
+	if !s.Loaded || i.contents.entriesList.next == nil {
+		return s, true
+	}
+	c := &i.contents
+	for entry := c.entriesList.next; entry != nil && entry != &c.entriesList && len(s.Entries) < 10000; entry = entry.next {
+		e := VerifInputrootEntry{
+			Name:   entry.name.String(),
+			Cookie: entry.cookie,
+		}
+		if directory, leaf := entry.child.GetPair(); directory != nil {
+			e.Directory = directory
+		} else {
+			e.Leaf = leaf
+		}
+		s.Entries = append(s.Entries, e)
+	}
+	return s, true
+}
+
+// VerifInputrootPool summarises the handle pool of the NFS handle
+// allocator: the link counts of all stateless leaves (ordered by inode
+// number), the number of stateful leaves and the number of directories
+// that are currently resolvable.
+func (hr *NFSStatefulHandleAllocator) VerifInputrootPool() (statelessLinkCounts []uint32, statefulLeaves, directories int) {
+	p := hr.pool
+	inodes := make([]uint64, 0, len(p.statelessLeaves))
+	for inode := range p.statelessLeaves {
+		inodes = append(inodes, inode)
+	}
+	sort.Slice(inodes, func(a, b int) bool { return inodes[a] < inodes[b] })
+	for _, inode := range inodes {
+		statelessLinkCounts = append(statelessLinkCounts, p.statelessLeaves[inode].linkCount)
+	}
+	return statelessLinkCounts, len(p.statefulLeaves), len(p.directories)
+}
